@@ -39,6 +39,9 @@ CLAIMS = {
          "Layout-table sizing: every narrowing conversion and unsigned addition of createArchetype and componentID is an obligation (this is what exposed the uint8 overflow above 240 types, fixed).",
          TRUST + " reflect.Type identity is payload-pointer identity; the reflection predicate isRelation is an uninterpreted function (contract assumed); the storage side of 'all IDs usable' (getLayout bounds for every table, ExtendLayouts re-basing) touches unsafe memory and is only covered by the assumed contracts of Init/CreateArchetype/extendArchetypeLayouts plus the witness test; ComponentID[T]/ResourceID[T] wrappers are covered through TypeID/ResourceTypeID.",
          "contract-based deductive verification: WP/symbolic execution over go/ssa, obligations discharged by z3/cvc5"),
+ "C02": ("The entity pool is proved against a ghost view (permutation of ids with the free list as its prefix, alive set, set of issued handles): Get returns an id that was not alive, makes exactly it alive, returns its current generation and a handle that was never issued before (since creation or the last Reset); recycled ids come back LIFO, fresh ids are the next index; Recycle (of an alive handle) makes exactly that id dead and strictly increases its generation; nobody else's liveness or generation changes; Alive(e) iff the generations agree; lemmas: a handle whose id was recycled since it was issued is never reported alive again (deadForever), the zero entity is never alive, two alive handles with one id are equal; Len = slots - free; Reset returns to the fresh pool view and empties the issued set. The bit set used for target flags and World.Alive are proved; invariants hold for all pool states and recycling depths.",
+         TRUST + " KNOWN FINDING C02-gen-wrap: generations wrap at 2^32 (Recycle is proved under gen != MaxUint32; confirmed failing without it). The world-side paths (createEntity/createEntities index sizing, RemoveEntity, removeEntities, LoadEntities) call the pool under these contracts but are not themselves discharged yet (table storage is unsafe memory): 'alive count = creations - removals over all histories' is proved at the pool level only. capacity() (64-bit mul/div) is an assumed contract.",
+         "contract-based deductive verification with ghost state: WP/symbolic execution over go/ssa, obligations discharged by z3/cvc5"),
 }
 
 NA = {
